@@ -53,6 +53,26 @@ fn anchors_by_coord(s: &State) -> std::collections::BTreeMap<P, Option<u64>> {
     m
 }
 
+/// EdgeAnchor of every edge, keyed by its unordered pair of end coordinates; FaceAnchor of every
+/// triangle, keyed by its canonical oriented coordinate triple.
+fn edge_face_anchors(s: &State, mv: &MeshView) -> (std::collections::BTreeMap<(P, P), Option<u64>>, std::collections::BTreeMap<Vec<P>, Option<u64>>) {
+    let (pe, pf_) = (s.partition(1), s.partition(2));
+    let mut em = std::collections::BTreeMap::new();
+    let mut fm = std::collections::BTreeMap::new();
+    for f in &mv.faces {
+        if mask_has(s.kinds, K_FA) {
+            fm.insert(canon_poly(&f.pts), s.attrs[K_FA][pf_[f.darts[0] as usize] as usize]);
+        }
+        if mask_has(s.kinds, K_EA) {
+            for (i, &d) in f.darts.iter().enumerate() {
+                let (p, q) = (f.pts[i], f.pts[(i + 1) % f.pts.len()]);
+                em.insert((p.min(q), p.max(q)), s.attrs[K_EA][pe[d as usize] as usize]);
+            }
+        }
+    }
+    (em, fm)
+}
+
 // =============================================================================== C15
 
 struct TriCtx {
@@ -335,6 +355,25 @@ pub fn check_remesh(pre: &State, post: &State, op: &Op, res: &Result<Res, String
     let (v1, e1, f1) = (mvp.n_vertices as i64, mvp.n_edges as i64, mvp.faces.len() as i64);
     if (v1 - v0, e1 - e0, f1 - f0) != (dv, de, df) {
         out.push(fnd("C15", "cell-counts-wrong", format!("{op:?}: (dV, dE, dF) = ({}, {}, {}), expected ({dv}, {de}, {df})", v1 - v0, e1 - e0, f1 - f0)));
+    }
+    // anchors of surviving edges and faces kept (cells identified by their coordinates; for a
+    // collapse the cells touching the merged end points change shape and are not compared)
+    let ((e0, f0a), (e1, f1a)) = (edge_face_anchors(pre, &ctx.mv), edge_face_anchors(post, &mvp));
+    for (k, an) in &e0 {
+        if let Some(an1) = e1.get(k) {
+            if an1 != an {
+                out.push(fnd("C15", "surviving-edge-anchor-changed", format!("{op:?}: anchor of the edge {:?} - {:?} changed from {an:?} to {an1:?}", pf(k.0), pf(k.1))));
+                break;
+            }
+        }
+    }
+    for (k, an) in &f0a {
+        if let Some(an1) = f1a.get(k) {
+            if an1 != an {
+                out.push(fnd("C15", "surviving-face-anchor-changed", format!("{op:?}: anchor of a face that was not modified changed from {an:?} to {an1:?}")));
+                break;
+            }
+        }
     }
     // anchors of surviving vertices kept (vertices identified by coordinates)
     let (a0, a1) = (anchors_by_coord(pre), anchors_by_coord(post));
